@@ -214,3 +214,50 @@ Proof.
   unfold arb_facet. set (s := dot (cross (vsub p1 p2) (vsub p1 p3)) (vsub (centroid_of vs) p1)) in *.
   nra.
 Qed.
+
+(* ---- TRC and REC against the solids described without their facets ---- *)
+Theorem trc_solid_ok (v h : pt) (r0 r1 : R) :
+  h <> (0, 0, 0) -> r0 <> r1 ->
+  forall es, trc RS (pl v ++ pl h ++ [r0; r1]) = Ok es -> forall p,
+    trc_inside v h r0 r1 p <-> all_negative es p.
+Proof.
+  intros Hh Hr es E p.
+  destruct (trc_inside_ok v h r0 r1 Hh Hr es E p) as [I _].
+  now rewrite trc_inside_facets.
+Qed.
+
+Theorem rec12_solid_ok (v h a1 a2 : pt) :
+  dot h a1 = 0 -> dot h a2 = 0 -> dot a1 a2 = 0 ->
+  h <> (0, 0, 0) -> a1 <> (0, 0, 0) -> a2 <> (0, 0, 0) ->
+  forall es, rec RS (pl v ++ pl h ++ pl a1 ++ pl a2) = Ok es -> forall p,
+    rec_inside v h a1 a2 p <-> all_negative es p.
+Proof.
+  intros H1 H2 H12 Hh Ha1 Ha2 es E p.
+  destruct (rec12_inside_ok v h a1 a2 Hh Ha1 Ha2 es E p) as [I _].
+  now rewrite rec_inside_facets.
+Qed.
+
+Theorem rec10_solid_ok (v h a1 : pt) (b : R) :
+  dot h a1 = 0 -> cross h a1 <> (0, 0, 0) -> b <> 0 ->
+  forall es, rec RS (pl v ++ pl h ++ pl a1 ++ [b]) = Ok es -> forall p,
+    rec_inside v h a1 (rec10_minor h a1 b) p <-> all_negative es p.
+Proof.
+  intros H1 Hc Hb es E p.
+  destruct (rec10_inside_ok v h a1 b Hc Hb es E p) as [I _].
+  assert (Hh : h <> (0, 0, 0)).
+  { intros ->. apply Hc. destruct a1 as [[x y] z]. unfold cross. apply pair3; ring. }
+  assert (Ha1 : a1 <> (0, 0, 0)).
+  { intros ->. apply Hc. destruct h as [[x y] z]. unfold cross. apply pair3; ring. }
+  assert (O : dot h (cross h a1) = 0 /\ dot a1 (cross h a1) = 0).
+  { clear. destruct h as [[x y] z], a1 as [[a b] c]. unfold dot, cross. split; ring. }
+  destruct O as [O1 O2].
+  assert (Ha2 : rec10_minor h a1 b <> (0, 0, 0)).
+  { unfold rec10_minor. intros Z. apply Hc. apply (vmul_zero (b / norm (cross h a1))); [|exact Z].
+    pose proof (norm_pos _ Hc). unfold Rdiv. apply Rmult_integral_contrapositive_currified; [exact Hb|].
+    apply Rinv_neq_0_compat. lra. }
+  assert (P1 : dot h (rec10_minor h a1 b) = 0).
+  { unfold rec10_minor. rewrite dot_vmul_r, O1. ring. }
+  assert (P2 : dot a1 (rec10_minor h a1 b) = 0).
+  { unfold rec10_minor. rewrite dot_vmul_r, O2. ring. }
+  rewrite (rec_inside_facets v h a1 (rec10_minor h a1 b) p H1 P1 P2 Hh Ha1 Ha2). exact I.
+Qed.
